@@ -54,7 +54,7 @@ A15 = {
     "types": ["mixed", "EXCIT", "RECOM", "CHEXC"],
     "a": ["A", " A"],
     "extra": [0, 1],
-    "absent": [0, 1],
+    "absent": [0, 1, 2],      # 1: the index table announces one more ISEL than there are data blocks; 2: an INTERIOR ISEL has no data block
 }
 NEUTRAL15 = {"sty": "H", "nne": 24, "nte": 24, "nblocks": 2, "types": "EXCIT", "a": "A", "extra": 0, "absent": 0}
 ORDER15 = ["nne", "nte", "nblocks", "sty", "types", "a", "extra", "absent"]
@@ -101,12 +101,13 @@ ASSUMPTIONS = [
     "comparison tolerance rel 1e-12 (ground truth is float(text); the only arithmetic is one multiplication or one 10**x)",
 ]
 REQUIRED_CLASSES = [
+    "install_files:every-key",
     "adf11:layout=96", "adf11:layout=89", "adf11:layout=r1", "adf11:layout=rm", "adf11:trailer=C-dash", "adf11:trailer=dash+C",
     "adf11:trailer=none", "adf11:nne<=8,first-te<1eV", "adf11:count-not-multiple-of-8", "adf11:canonical-24x30", "adf11:Z1>=10",
     "adf11:parse-agrees", "adf11:install:scd", "adf11:install:acd", "adf11:install:ccd", "adf11:install:plt", "adf11:install:prb",
     "adf11:install:prc", "adf11:wrong-element:rejected",
     "adf15:sty=H", "adf15:sty=HL", "adf15:sty=FULL", "adf15:sty=BND", "adf15:sty=HFMT", "adf15:sty=HLFMT", "adf15:EXCIT", "adf15:RECOM",
-    "adf15:CHEXC", "adf15:absent-isel:rejected", "adf15:parse-agrees", "adf15:install-readback", "adf15:count-not-multiple-of-8",
+    "adf15:CHEXC", "adf15:absent-isel:rejected", "adf15:absent-interior-isel:rejected", "adf15:parse-agrees", "adf15:install-readback", "adf15:count-not-multiple-of-8",
     "adf12:parse-agrees", "adf12:install-readback", "adf12:absent-block:rejected", "adf12:count<max", "adf12:letter=E",
     "adf21:parse-agrees", "adf22bmp:parse-agrees", "adf22bme:parse-agrees", "adf2x:install-readback", "adf2x:letter=D",
     "adf2x:count-not-multiple-of-8",
@@ -135,6 +136,7 @@ def cases(tier):
         for nne, nte in shapes11:
             out.append({"fam": "adf11", "cfg": cfg, "nne": nne, "nte": nte, "label": "adf11"})
     out.append({"fam": "adf11-reject", "label": "adf11-reject"})
+    out.append({"fam": "dispatch", "label": "install_files"})
     n15 = A15["n"][tier]
     for sty in A15["sty"]:
         for nne in n15:
@@ -202,6 +204,10 @@ def _fresh_dir(tag):
 
 
 def _quiet(fn, *a, **k):
+    name = getattr(fn, "__name__", "")
+    if _G.get("via_files") and name.startswith("install_adf") and set(k) <= {"repository_path", "adas_path"}:
+        # the configuration entry point: install_files({'adf11scd': [(element, file), ...], ...}) must do what the front-end does
+        a, fn = ({name[len("install_"):]: [tuple(a)]},), _G["install"].install_files
     with contextlib.redirect_stdout(io.StringIO()):
         return fn(*a, **k)
 
@@ -425,7 +431,13 @@ def eval15(f, with_install=True):
         if f["absent"]:
             # the index table announces one more ISEL than there are data blocks
             up, lo = W.PAIR_ABSENT_H if style == "hydrogen" else W.PAIR_ABSENT_X
-            index_only = [{"isel": f["nblocks"] + 1, "wavelength": 4321.0, "upper": up, "lower": lo, "type": "EXCIT"}]
+            kabs = f["nblocks"] + 1
+            if f["absent"] == 2:
+                # the absent block is not the last one: data blocks are numbered 1, 3, 4, ... (a single block: 2), the index table lists them all
+                kabs = 1 if f["nblocks"] == 1 else 2
+                for j, b in enumerate(blocks):
+                    b["isel"] = j + 1 if j + 1 < kabs else j + 2
+            index_only = [{"isel": kabs, "wavelength": 4321.0, "upper": up, "lower": lo, "type": "EXCIT"}]
         path = os.path.join(d, fname)
         truth = W.write_adf15(path, blocks, style=style, levels=W.LEVELS, a_style=f["a"], index_extra=bool(f["extra"]), index_only=index_only,
                               title="%s+%2d PHOTON EMISSIVITY COEFFICIENTS" % (sym.upper(), charge))
@@ -435,7 +447,7 @@ def eval15(f, with_install=True):
             rates, wl = _G["parse"].parse_adf15(el, charge, path, **kw)
         except Exception as e:  # noqa
             if f["absent"]:
-                r.classes.append("adf15:absent-isel:rejected")
+                r.classes.append("adf15:absent-isel:rejected" if f["absent"] == 1 else "adf15:absent-interior-isel:rejected")
                 return r
             return r.failed("parse_adf15", "raises:" + type(e).__name__, "tables of %d blocks" % f["nblocks"], repr(e)[:300])
         if f["absent"]:
@@ -446,7 +458,7 @@ def eval15(f, with_install=True):
                     got = _short(rates["excitation"][el][charge][key]["rate"])
             except Exception:  # noqa
                 pass
-            return r.failed("parse_adf15", "absent-isel:accepted", "an exception (index table lists ISEL=%d, no such data block)" % (f["nblocks"] + 1),
+            return r.failed("parse_adf15", "absent-isel:accepted", "an exception (index table lists ISEL=%d, no such data block)" % kabs,
                             {"returned-for-absent-block": got})
         # expected content per class
         exp = {}
@@ -570,7 +582,7 @@ def label15(f, fail=None):
     if f["extra"]:
         parts.append("index-extra-columns")
     if f["absent"]:
-        parts.append("absent-isel")
+        parts.append("absent-isel" if f["absent"] == 1 else "absent-interior-isel")
     return "+".join(parts) or "any-shape"
 
 
@@ -765,7 +777,7 @@ FAMILIES = {
 def _memo_fail(fam, f, with_install):
     """Failure of the file with features f (memoised per worker).  A trial for a failure at a parse site does not need the
     install stage: the parse stage comes first and decides."""
-    key = (fam, with_install, tuple(sorted(f.items())))
+    key = (fam, with_install, bool(_G.get("via_files")), tuple(sorted(f.items())))
     m = _G["memo"]
     if key not in m:
         if len(m) > 50000:
@@ -810,6 +822,14 @@ def _run_file(fam, f, out):
     else:
         fm = minimise(fam, f, res.fail)
         sig = "C08:%s:%s:%s" % (res.fail[0], label(fm, res.fail), res.fail[1])
+    if _G.get("via_files"):
+        _G["via_files"] = False
+        try:
+            direct = _memo_fail(fam, f, res.fail[0].startswith("install"))
+        finally:
+            _G["via_files"] = True
+        if direct != res.fail:
+            sig = "C08:install_files:%s:differs-from-the-front-end-called-directly:%s" % (res.fail[0], res.fail[1])
     out["viol"].append({"sig": sig, "what": "%s on a generated %s file; failing file features %s (minimised to %s)" % (res.fail[0], fam, f, fm),
                         "expected": res.exp, "observed": res.obs})
     out["nontrivial"].append((fam,) + tuple(sorted(f.items())))
@@ -909,6 +929,21 @@ def run_case(case):
             out["classes"].append("adf15:sty=" + case["sty"])
             if f["nne"] % 8 or f["nte"] % 8:
                 out["classes"].append("adf15:count-not-multiple-of-8")
+    elif fam == "dispatch":
+        # every installer reached through install_files(configuration): a few files of each format
+        _G["via_files"] = True
+        try:
+            for layout, cfg in (("96", "C2"), ("89", "H1"), ("r1", "C6")):
+                _run_file("adf11", dict(NEUTRAL11, layout=layout, cfg=cfg, nne=9, nte=7), out)
+            for sty in ("H", "HL", "FULL"):
+                _run_file("adf15", dict(NEUTRAL15, sty=sty, nne=9, nte=7, nblocks=5, types="mixed"), out)
+            for nblocks in (1, 3):
+                _run_file("adf12", dict(NEUTRAL12, nblocks=nblocks, nbeam=7, nti=6), out)
+            for entry in A21["entry"]:
+                _run_file("adf2x", dict(NEUTRAL21, entry=entry), out)
+        finally:
+            _G["via_files"] = False
+        out["classes"].append("install_files:every-key")
     elif fam == "adf12":
         for nze, nb, nblocks, letter, absent in itertools.product(case["n12"], case["n12"], A12["nblocks"], A12["letter"], A12["absent"]):
             f = {"nbeam": case["nbeam"], "nti": case["nti"], "ndi": case["ndi"], "nze": nze, "nb": nb, "nblocks": nblocks, "letter": letter, "absent": absent}
